@@ -59,6 +59,7 @@ def run_history(chk, kind, cap, H, hs, rows):
     from rl_blox.blox import replay_buffer as rbm
     cls = rbm.SubtrajectoryReplayBuffer if kind == "uniform" else rbm.SubtrajectoryReplayBufferPER
     buf = cls(cap, horizon=H)
+    rng_local = np.random.default_rng(cap * 1000 + H * 100 + len(rows))
     added = {}  # (ep, t) -> row
     trace = []
     case = {"class": kind, "capacity": cap, "horizon": H, "rows": [[r["ep"], r["t"], r["term"], r["trunc"]] for r in rows]}
@@ -95,6 +96,31 @@ def run_history(chk, kind, cap, H, hs, rows):
                     out["windows"].append((start, h, w, redv))
                     chk.count("windows")
                     spec_window(chk, case, ri, start, h, w, redv, added, kind)
+        if nz and kind == "per":
+            # the prioritized buffer through its real sampling path, interleaved with the additions (state carried from draw to draw):
+            # windows and reduced views must satisfy the property whatever the priorities are
+            for h in hs:
+                b = 4
+                us = [float(u) for u in np.clip((np.arange(b) + 0.5) / b + rng_local.uniform(-0.1, 0.1, size=b), 1e-6, 1 - 1e-6)]
+                stub = StubRng()
+                stub.uniforms = list(us)
+                okc, full = chk.impl_call("C04:per:sample-raised", {**case, "after_row": ri, "h": h}, buf.sample_batch, b, h, True, stub)
+                if not okc:
+                    break
+                wins = batch_rows(full, b, h)
+                stub2 = StubRng()
+                stub2.uniforms = list(us)
+                okc, red = chk.impl_call("C04:per:sample-raised", {**case, "after_row": ri, "h": h}, buf.sample_batch, b, h, False, stub2)
+                if not okc:
+                    break
+                ro, ra, rn = (np.asarray(getattr(red, k_)).reshape(b) for k_ in ("observation", "action", "next_observation"))
+                rr, rt, ru = (np.asarray(getattr(red, k_)).reshape(b, h) for k_ in ("reward", "terminated", "truncated"))
+                for wi, w in enumerate(wins):
+                    redv = [int(ro[wi]), int(ra[wi]), int(rn[wi]), [int(x) for x in rr[wi]], [bool(x) for x in rt[wi]], [bool(x) for x in ru[wi]]]
+                    chk.count("per_windows")
+                    spec_window(chk, case, ri, None, h, w, redv, added, kind)
+            if ri % 3 == 2:
+                buf.update_priority(np.asarray(rng_local.choice([0.25, 1.0, 4.0], size=4), dtype=float))
         trace.append(out)
     return trace, case
 
@@ -176,7 +202,8 @@ def main(chk):
     return chk.finish(
         rule="random histories of normal/terminating/truncating steps (episodes 1-11 steps, back-to-back one-step episodes, long "
              "episodes; capacity H+1..H+7, storage horizon 1-4, up to 3 wraps) on SubtrajectoryReplayBuffer (every enabled start x "
-             "sampling horizons {1, H, random} x both views after every add) and SubtrajectoryReplayBufferPER (state only; its "
-             "sampling is covered by C08); distinct = distinct (class, capacity, horizon, history)",
+             "sampling horizons {1, H, random} x both views after every add) and SubtrajectoryReplayBufferPER (state vs model; windows and reduced "
+             "views of batches drawn through its real prioritized sampling path after every add, interleaved with priority updates; the "
+             "sampling law itself is C08's); distinct = distinct (class, capacity, horizon, history)",
         assumptions=["rows carry (episode, t) tags in the observation; integer payloads are exact in float64",
                      "reading of the property: guarantees up to and including the first terminated step (DESIGN.md §2 C04)"])
